@@ -193,6 +193,7 @@ def _features(cls, args, what):
     ops_ = [getattr(a, "__name__", None) or getattr(a, "name", None) for a in args if type(a).__module__.startswith("funsor.ops")]
     f["ops"] = [str(o) for o in ops_][:3]
     f["op0"] = f["ops"][0] if f["ops"] else None
+    f["has_boolean_data_tensor_arg"] = any(getattr(getattr(a, "data", None), "dtype", None) == bool for a in args)
     return f
 
 
